@@ -55,6 +55,27 @@ def l2_tree_invariances(run, rng, quick):
                                   dict(spec=spec, derive=dname, source_dtype=str(np.asarray(before).dtype),
                                        deviation=float(np.max(np.abs(after - before))),
                                        what="scaling the derived tree state in place changed the state it was derived from"))
+        # measure -> mutate in place -> measure again: every reduced density matrix of c*psi is |c|^2 times that of psi
+        try:
+            work = ttns.copy()
+            r1 = work.calc_1site_rdm()
+            q1 = work.calc_1dof_rdm()
+            cc = 1.7 if not np.iscomplexobj(q1[next(iter(q1))]) or rng.random() < 0.5 else complex(0.6, -1.1)
+            work.scale(cc, inplace=True)
+            r2 = work.calc_1site_rdm()
+            q2 = work.calc_1dof_rdm()
+            worst = 0.0
+            for a, b in ((r1, r2), (q1, q2)):
+                for key in a:
+                    ref = abs(cc) ** 2 * np.asarray(a[key])
+                    worst = max(worst, float(np.max(np.abs(np.asarray(b[key]) - ref))) / max(1.0, float(np.max(np.abs(ref)))))
+            run.count("measure-mutate-measure")
+            if worst > 1e-10:
+                run.violation("rdm:after-inplace-scale:not-rescaled",
+                              dict(spec=spec, factor=str(cc), relative_deviation=worst,
+                                   what="reduced density matrices computed after an in-place rescaling of the state are not |c|^2 times those computed before"))
+        except Exception as e:  # noqa
+            run.count("measure-mutate-measure-raised:" + type(e).__name__)
         # children listed in another order
         spec2 = lt.permute_children(rng, spec)
         tens2 = lt.permute_state_children(spec, spec2, st["tensors"])
